@@ -86,6 +86,9 @@ func main() {
 		if a[0] == "writers" {
 			return sourceWriters()
 		}
+		if a[0] == "clocks" {
+			return sourceClocks()
+		}
 		return sourceConsts()
 	})
 	// dl <probe> <offline> <purge> (seconds): does Config.NewSession accept these deadlines?
@@ -147,6 +150,7 @@ func main() {
 	}
 	r.Do("src", "writers")
 	r.Do("src", "consts")
+	r.Do("src", "clocks")
 	// concurrent executions: Inv at the quiescent point
 	nQ := 150
 	if r.Thorough() {
